@@ -14,7 +14,7 @@ import (
 
 func init() {
 	Register(&Scenario{
-		Prop: "C16", Run: scenarioC16, Race: true, Instrument: true, QuickRuns: 480, ThoroughRuns: 12000, Level: "exploration",
+		Prop: "C16", Run: scenarioC16, Race: true, Instrument: true, QuickRuns: 640, ThoroughRuns: 12800, Level: "exploration",
 		Rule:       "one run = one seeded world with the parallel executor turned over for 1..N epochs under one tape-chosen scheduling strategy (uniform random at every yield, run-to-completion in a random species order, round-robin, PCT-style priorities with change points); after every epoch the C01 well-formedness, C02 partition and C03 one-number-one-link oracles run; any Go race detector report is a violation. A case is one scheduled epoch; it is non-trivial when at least two reproduction goroutines ran and the schedule switched between them before one finished; distinct = distinct hash of the (task, yield tag) sequence",
 		RealParts:  []string{"ParallelPopulationEpochExecutor and everything below it", "real goroutines, sync.Mutex, sync/atomic, channel and WaitGroup of the library", "Go race detector (happens-before) as the oracle for the race half", "math/rand global source (locked) seeded from the tape"},
 		StubParts:  []string{"the Go scheduler's choice of which reproduction goroutine proceeds at a hook point (replaced by the tape)", "fitness assignment"},
